@@ -95,6 +95,18 @@ static long pairs_for(int maxlen, FILE *f) {
                 fputs("}\n", f);
                 ++n;
             }
+            // two views into ONE buffer that start at the same unit (a view is a pointer and a length): a is a prefix of b
+            if (conc[i].size() <= conc[j].size() && conc[j].compare(0, conc[i].size(), conc[i]) == 0) {
+                StringView<Ch> a((const Ch *)eb.data(), (SizeT)ea.n), b((const Ch *)eb.data(), (SizeT)eb.n);
+                fprintf(f, "{\"k\":\"str\",\"t\":\"StringView<%s>-shared\",\"a\":%s,\"b\":%s,\"r\":", Units<Ch>::name(), ja.c_str(), jb.c_str());
+                emit6(f, a < b, a <= b, a > b, a >= b, a == b, a != b);
+                fputs("}\n", f);
+                ++n;
+                fprintf(f, "{\"k\":\"str\",\"t\":\"StringView<%s>-shared\",\"a\":%s,\"b\":%s,\"r\":", Units<Ch>::name(), jb.c_str(), ja.c_str());
+                emit6(f, b < a, b <= a, b > a, b >= a, b == a, b != a);
+                fputs("}\n", f);
+                ++n;
+            }
         }
     }
     return n;
